@@ -678,6 +678,16 @@ func (w *World) scriptCutTile() {
 		return
 	}
 	w.sim.Probe("script.cut-tile")
+	// the commit at n1 has to cut the tile that holds n1 out of the wider one:
+	// plainly, or with the first or second of its uploads failing and a retry
+	if v := r.Intn(3); v > 0 {
+		w.failUploadAt = v
+		entries(n1, n1, ticket.ticket, "ticket-cut")
+		if w.failUploadAt == 0 {
+			w.sim.Probe("script.cut-tile.retry")
+		}
+		w.failUploadAt = 0
+	}
 	entries(n1, n1, ticket.ticket, "ticket-cut")
 }
 
